@@ -47,6 +47,8 @@ jagged.roundtrip}.  Classes with an identified cause keep the same id in every c
                                 "unmatched sizes" / IndexError, or everything comes back None
 The other classes are <clause>.<class> in a collection of ONE kind and dtype and <clause>.mixed.<class> in a collection
 that mixes kinds or dtypes (decided from the input alone), so that a mixed-kind finding never hides a one-kind failure:
+  marker-lost-in-float-promotion  None came back as a value: 64-bit signed and unsigned integers in one column are promoted
+                         to float64 before the cast to the first entry's dtype, which moves that dtype's None marker
   none-position          None came back as a value / a value came back None (none of the causes above)
   kind-promotion         bool -> int, bool -> float, int -> float with the same numeric value (1 -> 1.0)
   int-precision-lost     int -> float with another value (2**64-1 -> 1.8446744073709552e19)
@@ -656,6 +658,26 @@ def cast_hits_sentinel(ev, nonNone):
         return False
 
 
+def marker_lost_in_promotion(expected, nonNone):
+    """Attribution only: a column of 64-bit signed AND unsigned integers is promoted to float64 by numpy before the cast to
+    the first entry's dtype; the None marker of that dtype (min+2 / max-2) is not a float64 value, so it comes back as another
+    integer and the reader does not recognise it."""
+    first = nonNone[0]
+    m = sentinel_of(first)
+    if not isinstance(m, int) or isinstance(first, int):
+        return False
+    dt = np.asarray(first).dtype
+    try:
+        with np.errstate(all="ignore"):
+            col = np.array([np.asarray(x) if x is not None else np.asarray(m, dtype=dt) for x in expected])
+            if col.dtype.kind != "f":
+                return False
+            back = col.astype(dt)
+        return any(x is None and int(back[i]) != m for i, x in enumerate(expected))
+    except Exception:
+        return False
+
+
 ROOT_CAUSE = ("sentinel-collision", "unsigned-sentinel", "shape.inner-ragged-flattened", "jagged-entry-skipped")
 
 
@@ -672,6 +694,8 @@ def classify(expected, i, e, r):
                 return "jagged-entry-skipped"
             if cast_hits_sentinel(e, nonNone):
                 return "value-cast-to-sentinel"
+        if detail == "none-became-value" and marker_lost_in_promotion(expected, nonNone):
+            return "marker-lost-in-float-promotion"
         if one_unsigned_dtype(nonNone):
             return "unsigned-sentinel"  # writer and reader disagree on the None marker of an unsigned dtype
         return "none-position"
